@@ -27,7 +27,9 @@ class VC(Scheduler):
         self.store = PriorityStore(env)
         self.arrival_seq = 0
         for class_id in vticks.keys():
-            self.aux_vc[class_id] = 0
+            # the clock origin, not 0: with a negative initial time
+            # max(now, auxVC) must still select `now` for the first packet
+            self.aux_vc[class_id] = env.now
             self.vc[class_id] = 0
         self.proc = env.process(self.run(env))
 
